@@ -52,6 +52,11 @@ func main() {
 	}
 
 	nLattice := run.N(96, 2400)
+	if os.Getenv("C05_ONLY_LATTICE") != "" {
+		run.Parallel(nLattice, 8, latticeCase)
+		closeServers()
+		run.Finish(1)
+	}
 	nMatrix := run.N(len(matrixTemplates())*4*2, len(matrixTemplates())*4*10)
 	sweeps := sweepConfigs(run.Thorough())
 
